@@ -120,13 +120,17 @@ class C20(Prop):
         nrand = 6000 if tier == "quick" else 60000
         for _ in range(nrand):
             out.append(self.rand_case(rng))
+        for _ in range(nrand // 6):
+            out.append(self.rand_case(rng, wide=True))
         return out
 
-    def rand_case(self, rng):
+    def rand_case(self, rng, wide=False):
         key = rng.choice(KEYS)
         flavor = rng.choice(["local", "threads"])
-        n = rng.randint(3, 14)
+        n = rng.randint(30, 70) if wide else rng.randint(3, 14)
         alpha = ALPHA if rng.random() < 0.7 else list(range(0, 8))
+        if wide:    # many groups alive together, long streams
+            alpha = list(range(-3, 20))
         r = rng.random()
         skip, otake, kind = (), None, "rand"
         if r < 0.25:
